@@ -518,6 +518,10 @@ func c19Run(w *core.W) {
 		for n := 15; n <= 24; n++ {
 			vals = append(vals, "\""+strings.Repeat("s", n)+"\"")
 		}
+		// text whose byte length and character count differ (the report cuts at 20 bytes)
+		for n := 6; n <= 12; n++ {
+			vals = append(vals, "\""+strings.Repeat("é", n)+"\"", "\""+strings.Repeat("語", n)+"\"", "\"ab"+strings.Repeat("é", n)+"!\"")
+		}
 		for n := 1; n <= 12; n++ {
 			for _, el := range []string{"\"\"", "\"a\"", "1", "[]", "[1]", "12", "1.5"} {
 				vals = append(vals, "["+strings.TrimSuffix(strings.Repeat(el+", ", n), ", ")+"]")
